@@ -593,6 +593,11 @@ class Ctx:
         if k == 'slice':
             lens = o.get('lens')
             if lens is None:
+                for pat, ls in self.opts.get('lens_by_tag', ()):
+                    if pat in lz.tag:
+                        lens = list(ls)
+                        break
+            if lens is None:
                 lens = list(range(0, self.K + 1))
                 # explore the single-element shape first
                 if len(lens) > 1:
@@ -747,7 +752,18 @@ class Interp:
     def global_ptr(self, name):
         cid = 'g:' + name
         if cid not in self.ctx.store:
-            self.ctx.store[cid] = self.prog.zero(self.prog.globals[name])
+            t = self.prog.globals[name]
+            pkg = name.rsplit('.', 1)[0]
+            fj = self.prog.funcs.get(pkg + '.init')
+            if (fj is None or not fj.get('hasbody')) and t == 'error':
+                # sentinel error of a library whose init is not executed: a unique, stable identity
+                ecell = 'e:' + name
+                self.ctx.store[ecell] = StructV([name.rsplit('/', 1)[-1]])
+                self.ctx.store[cid] = Iface('*errors.errorString', Ptr(ecell))
+            else:
+                if fj is None or not fj.get('hasbody'):
+                    self.ctx.opaque_calls['global:' + name] = self.ctx.opaque_calls.get('global:' + name, 0) + 1
+                self.ctx.store[cid] = self.prog.zero(t)
         return Ptr(cid)
 
     # ---- function execution
